@@ -52,6 +52,11 @@ pub struct Table {
     pub pot: Option<Vec<Vec<isize>>>,
     /// seed of the random total order used as state ranking
     pub rank_seed: u64,
+    /// "top" relaxation: the last base state of every layer simulates all the others (all decisions, maximal costs, goes to the next
+    /// top) and `merge` returns that (exact looking) state instead of the union. A merged node can then coincide with a genuinely exact
+    /// node of the layer (ddo recycles that node), which the powerset relaxation alone cannot produce on a first merge.
+    #[serde(default)]
+    pub top_merge: bool,
 }
 
 #[derive(Debug, Clone, PartialEq, Eq, Hash)]
@@ -73,6 +78,7 @@ pub struct GenOpts {
     pub few_dead_arcs: bool,
     /// share (in quarters) of knapsack-shaped tables (base state = capacity used; heavy re-convergence, many layers)
     pub knapsack_quarters: u64,
+    pub top_merge_quarters: u64,
 }
 
 impl Table {
@@ -91,7 +97,7 @@ impl Table {
         let mut order: Vec<usize> = (0..n).collect();
         if rng.chance(1, 2) { for i in (1..n).rev() { let j = rng.below(i + 1); order.swap(i, j); } }
         let rub = match rng.below(3) { 0 => Rub::None, 1 => Rub::Exact, _ => Rub::Slack(1 + rng.below(4) as isize) };
-        Table { n, s, d, next, cost, v0: 0, order, depth_in_state: !o.depth_free, irrelevant: vec![vec![false; s]; n], rub, pot: None, rank_seed: rng.next() }
+        Table { n, s, d, next, cost, v0: 0, order, depth_in_state: !o.depth_free, irrelevant: vec![vec![false; s]; n], rub, pot: None, rank_seed: rng.next(), top_merge: false }
     }
     pub fn generate(rng: &mut Rng, o: GenOpts) -> Table {
         if o.knapsack_quarters > 0 && !o.long_arcs && rng.chance(o.knapsack_quarters, 4) { return Table::generate_knapsack(rng, o); }
@@ -131,11 +137,22 @@ impl Table {
                 for x in 0..d { next[l][b][x] = if rng.chance(1, 5) { None } else { next[l][a][x] }; cost[l][b][x] = cost[l][a][x] - rng.below(3) as isize; }
             } } }
         }
+        // "top" relaxation (a quarter of the instances without long arcs, s >= 2)
+        let top_merge = !o.long_arcs && s >= 2 && rng.chance(o.top_merge_quarters, 4);
+        if top_merge {
+            let top = s - 1;
+            for l in 0..n { for x in 0..d {
+                next[l][top][x] = Some(top as u8);
+                cost[l][top][x] = (0..s).filter(|a| *a != top).map(|a| cost[l][a][x]).max().unwrap_or(0).max(cost[l][top][x]);
+            } }
+            // a few ordinary arcs lead into the top state, so that it is also reached exactly
+            for l in 0..n { for a in 0..top { for x in 0..d { if next[l][a][x].is_some() && rng.chance(1, 6) { next[l][a][x] = Some(top as u8); } } } }
+        }
         let mut order: Vec<usize> = (0..n).collect();
         if rng.chance(1, 2) { for i in (1..n).rev() { let j = rng.below(i + 1); order.swap(i, j); } }
         let rub = match rng.below(3) { 0 => Rub::None, 1 => Rub::Exact, _ => Rub::Slack(1 + rng.below(4) as isize) };
         let pot = if rng.chance(1, 2) { Some((0..=n).map(|_| (0..s).map(|_| rng.below(4) as isize).collect()).collect()) } else { None };
-        Table { n, s, d, next, cost, v0: rng.range(-3, 3), order, depth_in_state: !(o.depth_free || o.long_arcs), irrelevant, rub, pot, rank_seed: rng.next() }
+        Table { n, s, d, next, cost, v0: rng.range(-3, 3), order, depth_in_state: !(o.depth_free || o.long_arcs), irrelevant, rub, pot: if top_merge { None } else { pot }, rank_seed: rng.next(), top_merge }
     }
 }
 
@@ -329,6 +346,7 @@ impl Relaxation for TRelax<'_> {
     fn merge(&self, states: &mut dyn Iterator<Item = &TState>) -> TState {
         let mut set = 0; let mut layer = None;
         for s in states { set |= s.set; layer = s.layer; }
+        if self.0.t.top_merge { set = 1 << (self.0.t.s - 1); }
         TState { layer, set }
     }
     fn relax(&self, src: &TState, dst: &TState, merged: &TState, dec: Decision, cost: isize) -> isize {
